@@ -406,6 +406,33 @@ func (ba *boolAnalysis) markerTest(cond ssa.Value) (k int, idx ssa.Value, neg bo
 // lenIsOne: cond is len(X) == 1 (neg for !=).
 func (ba *boolAnalysis) lenIsOne(cond ssa.Value) (k int, neg bool, ok bool) {
 	cond, outerNeg := unwrapNot(cond)
+	// through a one-block predicate helper `func(list) bool { return len(list) == 1 }`
+	if call, isCall := cond.(*ssa.Call); isCall {
+		if sc := call.Call.StaticCallee(); sc != nil && len(sc.Blocks) == 1 && len(call.Call.Args) >= 1 {
+			if ret, isRet := sc.Blocks[0].Instrs[len(sc.Blocks[0].Instrs)-1].(*ssa.Return); isRet && len(ret.Results) == 1 {
+				if bo, isBo := ret.Results[0].(*ssa.BinOp); isBo && (bo.Op.String() == "==" || bo.Op.String() == "!=") {
+					var lv ssa.Value
+					if c, isC := cfgutilConst(bo.Y); isC && c == 1 {
+						lv = bo.X
+					} else if c, isC := cfgutilConst(bo.X); isC && c == 1 {
+						lv = bo.Y
+					}
+					if lv != nil {
+						if x, isLen := lenArg(lv); isLen {
+							for i, pp := range sc.Params {
+								if ssa.Value(pp) == x && i < len(call.Call.Args) {
+									if kk, isOp := ba.operandOf(call.Call.Args[i]); isOp {
+										return kk, (bo.Op.String() == "!=") != outerNeg, true
+									}
+								}
+							}
+						}
+					}
+				}
+			}
+		}
+		return
+	}
 	bo, isBo := cond.(*ssa.BinOp)
 	if !isBo || (bo.Op.String() != "==" && bo.Op.String() != "!=") {
 		return
@@ -467,8 +494,20 @@ func rowString(arity int, row [2]bool) string {
 
 // analyseBoolNode runs the symbolic execution of one logical node's compute method.
 func analyseBoolNode(p *load.Program, fn *ssa.Function, list *ssa.Parameter, arity int, op string) *boolAnalysis {
+	return analyseBoolNodeWith(p, fn, list, arity, op, nil, newBoolFacts(), 0)
+}
+
+// analyseBoolNodeWith: pre != nil analyses a helper to which the node delegates the merge: its
+// parameters stand for the operands' verdict lists and init holds what the caller established.
+func analyseBoolNodeWith(p *load.Program, fn *ssa.Function, list *ssa.Parameter, arity int, op string, pre map[ssa.Value]int, init boolFacts, depth int) *boolAnalysis {
 	ba := &boolAnalysis{p: p, fn: fn, arity: arity, list: list, operand: map[ssa.Value]int{}}
-	recv := fn.Params[0]
+	for v, k := range pre {
+		ba.operand[v] = k
+	}
+	var recv ssa.Value
+	if len(fn.Params) > 0 {
+		recv = fn.Params[0]
+	}
 	var root *ssa.Parameter
 	for _, prm := range fn.Params[1:] {
 		if prm != list {
@@ -498,7 +537,19 @@ func analyseBoolNode(p *load.Program, fn *ssa.Function, list *ssa.Parameter, ari
 			if isLd {
 				fa, _ = ld.X.(*ssa.FieldAddr)
 			}
-			if fa == nil || fa.X != ssa.Value(recv) || fa.Field >= arity {
+			if fa == nil || fa.X != recv || fa.Field >= arity {
+				// a helper of the package that is handed operand lists and returns the merged list: analysed where it is returned
+				if sc := call.Call.StaticCallee(); sc != nil && p.InPkg(sc) && sc.Blocks != nil && depth == 0 {
+					handsOperand := false
+					for _, a := range call.Call.Args {
+						if _, isOp := ba.operandOf(a); isOp {
+							handsOperand = true
+						}
+					}
+					if handsOperand {
+						continue
+					}
+				}
 				ba.problem("call %s producing a list is not an evaluation of one of the node's operand fields", call.String())
 				continue
 			}
@@ -521,7 +572,7 @@ func analyseBoolNode(p *load.Program, fn *ssa.Function, list *ssa.Parameter, ari
 	for _, k := range ba.operand {
 		seen[k] = true
 	}
-	for k := 0; k < arity; k++ {
+	for k := 0; k < arity && pre == nil; k++ {
 		if !seen[k] {
 			ba.problem("operand field %d is never evaluated", k)
 		}
@@ -737,7 +788,7 @@ func analyseBoolNode(p *load.Program, fn *ssa.Function, list *ssa.Parameter, ari
 			ba.fail("the method can panic explicitly")
 			continue
 		}
-		facts := newBoolFacts()
+		facts := init
 		flagFact := -1
 		feasible := true
 		throughLoop := false
@@ -824,6 +875,15 @@ func analyseBoolNode(p *load.Program, fn *ssa.Function, list *ssa.Parameter, ari
 				check("", facts, res)
 			} else if k, ok := ba.operandOf(rv); ok {
 				check("", facts, boolRes{kind: 2, k: k})
+			} else if sub := ba.delegate(rv, facts, op, depth); sub != nil {
+				for _, m := range sub.failures {
+					ba.fail("in %s: %s", load.FuncName(sub.fn), m)
+				}
+				for _, m := range sub.problems {
+					ba.problem("in %s: %s", load.FuncName(sub.fn), m)
+				}
+				ba.scen += sub.scen
+				ba.checked += sub.checked
 			} else {
 				ba.problem("returned value is neither an operand's verdict list nor one of the two one-element lists")
 			}
@@ -1327,6 +1387,7 @@ type lclassCtx struct {
 	comp  map[*ssa.Function]*ssa.Parameter
 	why   string
 	depth int
+	bind  map[*ssa.Parameter]listClass // parameters of a helper being followed -> class of the argument
 }
 
 func (lc *lclassCtx) classify(fn *ssa.Function, list *ssa.Parameter, v ssa.Value, seen map[ssa.Value]bool) listClass {
@@ -1339,6 +1400,9 @@ func (lc *lclassCtx) classify(fn *ssa.Function, list *ssa.Parameter, v ssa.Value
 	case *ssa.Parameter:
 		if x == list {
 			return lcN
+		}
+		if c, ok := lc.bind[x]; ok {
+			return c
 		}
 	case *ssa.Phi:
 		var c listClass
@@ -1427,6 +1491,28 @@ func (lc *lclassCtx) classify(fn *ssa.Function, list *ssa.Parameter, v ssa.Value
 		} else if sc := x.Call.StaticCallee(); sc != nil {
 			if _, ok := lc.comp[sc]; ok {
 				isCompute, args = true, x.Call.Args[1:]
+			}
+		}
+		// a package helper that is handed lists and returns one: the classes of what it returns,
+		// with its list parameters standing for the arguments
+		if sc := x.Call.StaticCallee(); sc != nil && !isCompute && p.InPkg(sc) && sc.Blocks != nil && lc.depth < 2 && isIfaceSliceT(x.Type()) {
+			sub := &lclassCtx{p: p, comp: lc.comp, depth: lc.depth + 1, bind: map[*ssa.Parameter]listClass{}}
+			for i, a := range x.Call.Args {
+				if i < len(sc.Params) && isIfaceSliceT(a.Type()) {
+					sub.bind[sc.Params[i]] = lc.classify(fn, list, a, map[ssa.Value]bool{})
+				}
+			}
+			var c listClass
+			for _, b := range sc.Blocks {
+				if ret, ok := b.Instrs[len(b.Instrs)-1].(*ssa.Return); ok && len(ret.Results) == 1 && b.Comment != "recover" {
+					c |= sub.classify(sc, nil, ret.Results[0], map[ssa.Value]bool{})
+				}
+			}
+			if c != 0 {
+				if c&lcOther != 0 && lc.why == "" {
+					lc.why = sub.why
+				}
+				return c
 			}
 		}
 		if isCompute && len(args) == 2 {
@@ -1791,4 +1877,30 @@ func tri(v int) string {
 		return "true"
 	}
 	return "unknown"
+}
+
+// delegate: v is the result of a package helper that receives operand verdict lists; analyse the
+// helper with its parameters bound to the operands and the caller's path facts as initial facts.
+func (ba *boolAnalysis) delegate(v ssa.Value, facts boolFacts, op string, depth int) *boolAnalysis {
+	if depth > 0 {
+		return nil
+	}
+	call, ok := v.(*ssa.Call)
+	if !ok {
+		return nil
+	}
+	sc := call.Call.StaticCallee()
+	if sc == nil || !ba.p.InPkg(sc) || sc.Blocks == nil || !isIfaceSliceT(call.Type()) {
+		return nil
+	}
+	pre := map[ssa.Value]int{}
+	for i, a := range call.Call.Args {
+		if k, isOp := ba.operandOf(a); isOp && i < len(sc.Params) {
+			pre[sc.Params[i]] = k
+		}
+	}
+	if len(pre) == 0 {
+		return nil
+	}
+	return analyseBoolNodeWith(ba.p, sc, nil, ba.arity, op, pre, facts, depth+1)
 }
